@@ -214,26 +214,6 @@ macro_rules! tri {
 
 pub(crate) use tri;
 
-struct DepthGuard<'a, R> {
-    de: &'a mut Deserializer<R>,
-}
-
-impl<'a, 'de, R: Reader<'de>> DepthGuard<'a, R> {
-    fn guard(de: &'a mut Deserializer<R>) -> Result<Self> {
-        de.remaining_depth -= 1;
-        if de.remaining_depth == 0 {
-            return Err(de.parser.error(RecursionLimitExceeded));
-        }
-        Ok(Self { de })
-    }
-}
-
-impl<'a, R> Drop for DepthGuard<'a, R> {
-    fn drop(&mut self) {
-        self.de.remaining_depth += 1;
-    }
-}
-
 fn visit_number<'de, V>(num: &ParserNumber, visitor: V) -> Result<V::Value>
 where
     V: de::Visitor<'de>,
@@ -429,6 +409,20 @@ impl<'de, R: Reader<'de>> Deserializer<R> {
         }
     }
 
+    // nesting of serde containers is limited (MAX_ALLOWED_DEPTH); every container visit is bracketed by
+    // these two calls
+    fn enter_recursion(&mut self) -> Result<()> {
+        if self.remaining_depth <= 1 {
+            return Err(self.parser.error(RecursionLimitExceeded));
+        }
+        self.remaining_depth -= 1;
+        Ok(())
+    }
+
+    fn leave_recursion(&mut self) {
+        self.remaining_depth += 1;
+    }
+
     // we deserialize json number from string or number types
     fn deserialize_rawnumber<V>(&mut self, visitor: V) -> Result<V::Value>
     where
@@ -494,8 +488,10 @@ impl<'de, 'a, R: Reader<'de>> de::Deserializer<'de> for &'a mut Deserializer<R> 
             },
             b'[' => {
                 let ret = {
-                    let _ = DepthGuard::guard(self);
-                    visitor.visit_seq(SeqAccess::new(self))
+                    tri!(self.enter_recursion());
+                    let ret = visitor.visit_seq(SeqAccess::new(self));
+                    self.leave_recursion();
+                    ret
                 };
                 match (ret, self.end_seq()) {
                     (Ok(ret), Ok(())) => Ok(ret),
@@ -504,8 +500,10 @@ impl<'de, 'a, R: Reader<'de>> de::Deserializer<'de> for &'a mut Deserializer<R> 
             }
             b'{' => {
                 let ret = {
-                    let _ = DepthGuard::guard(self);
-                    visitor.visit_map(MapAccess::new(self))
+                    tri!(self.enter_recursion());
+                    let ret = visitor.visit_map(MapAccess::new(self));
+                    self.leave_recursion();
+                    ret
                 };
                 match (ret, self.end_map()) {
                     (Ok(ret), Ok(())) => Ok(ret),
@@ -778,8 +776,10 @@ impl<'de, 'a, R: Reader<'de>> de::Deserializer<'de> for &'a mut Deserializer<R> 
         let value = match peek {
             b'[' => {
                 let ret = {
-                    let _ = DepthGuard::guard(self);
-                    visitor.visit_seq(SeqAccess::new(self))
+                    tri!(self.enter_recursion());
+                    let ret = visitor.visit_seq(SeqAccess::new(self));
+                    self.leave_recursion();
+                    ret
                 };
                 match (ret, self.end_seq()) {
                     (Ok(ret), Ok(())) => Ok(ret),
@@ -824,8 +824,10 @@ impl<'de, 'a, R: Reader<'de>> de::Deserializer<'de> for &'a mut Deserializer<R> 
         let value = match peek {
             b'{' => {
                 let ret = {
-                    let _ = DepthGuard::guard(self);
-                    visitor.visit_map(MapAccess::new(self))
+                    tri!(self.enter_recursion());
+                    let ret = visitor.visit_map(MapAccess::new(self));
+                    self.leave_recursion();
+                    ret
                 };
                 match (ret, self.end_map()) {
                     (Ok(ret), Ok(())) => Ok(ret),
@@ -856,8 +858,10 @@ impl<'de, 'a, R: Reader<'de>> de::Deserializer<'de> for &'a mut Deserializer<R> 
         let value = match peek {
             b'[' => {
                 let ret = {
-                    let _ = DepthGuard::guard(self);
-                    visitor.visit_seq(SeqAccess::new(self))
+                    tri!(self.enter_recursion());
+                    let ret = visitor.visit_seq(SeqAccess::new(self));
+                    self.leave_recursion();
+                    ret
                 };
                 match (ret, self.end_seq()) {
                     (Ok(ret), Ok(())) => Ok(ret),
@@ -866,8 +870,10 @@ impl<'de, 'a, R: Reader<'de>> de::Deserializer<'de> for &'a mut Deserializer<R> 
             }
             b'{' => {
                 let ret = {
-                    let _ = DepthGuard::guard(self);
-                    visitor.visit_map(MapAccess::new(self))
+                    tri!(self.enter_recursion());
+                    let ret = visitor.visit_map(MapAccess::new(self));
+                    self.leave_recursion();
+                    ret
                 };
                 match (ret, self.end_map()) {
                     (Ok(ret), Ok(())) => Ok(ret),
@@ -899,8 +905,10 @@ impl<'de, 'a, R: Reader<'de>> de::Deserializer<'de> for &'a mut Deserializer<R> 
             Some(b'{') => {
                 self.parser.read.eat(1);
                 let value = {
-                    let _ = DepthGuard::guard(self);
-                    tri!(visitor.visit_enum(VariantAccess::new(self)))
+                    tri!(self.enter_recursion());
+                    let ret = visitor.visit_enum(VariantAccess::new(self));
+                    self.leave_recursion();
+                    tri!(ret)
                 };
 
                 match self.parser.skip_space() {
